@@ -297,6 +297,8 @@ func pathMatchesTable(h H) (bad string, ncases int) {
 		{"/a/../a/b", "/a", false, true}, {"//a//b", "/a", false, true}, {"/a/./b", "/a/", false, true}, {"/x/../a/b", "/a", false, true},
 		{"/A/B", "/a", false, true}, {"/a/b", "/A", false, true}, {"/anything", "/", false, true}, {"/anything", "", false, true},
 		{"/a/b/../../a/b/c", "/a/b", false, true}, {"/./a/b", "/a", false, true}, {"/a/./b/c", "/a/b", false, true}, {"/a/b/.", "/a/b", false, true}, {"/./a", "/a/", false, false},
+		// a path that ends in a dot segment names the directory: /a/. and /a/b/.. are /a/
+		{"/a/.", "/a/", false, true}, {"/a/b/..", "/a/", false, true}, {"/x/../a/.", "/a/", false, true}, {"/a/b/../.", "/a/", false, true},
 		{"/b", "/a", false, false}, {"/a", "/a/b", false, false}, {"/a/c", "/a/b", false, false}, {"/a/b/../c", "/a/b", false, false}, {"/", "/a", false, false},
 		{"/a/b", "/a", true, true}, {"/A/b", "/a", true, false}, {"/a/../A/b", "/a", true, false},
 	}
